@@ -12,12 +12,14 @@ import hashlib
 import json
 import os
 import random
+import re
 import shutil
 import subprocess
 from fractions import Fraction
 
 import common
 import etrade as E
+import etradetext as T
 from common import run_harness, run_model
 
 RUNROOT = os.path.join(common.BUILD, "run")
@@ -297,6 +299,8 @@ def replay_obj(case, paths_texts=None):
 def check_cases(res, ctx, cases, root, offset, bins):
     st = ctx["stats"]
     paths = [materialise(c, root, offset + k) for k, c in enumerate(cases)]
+    for c in cases:
+        ctx.setdefault("text_files", []).extend(c["files"])      # for the text-layer pass
     impl_raw = run_harness(ctx["exe"], "extract", [{"files": p} for p in paths])
     recs = [E.records(c["files"]) for c in cases]
     tabs = [E.Tables() for _ in cases]
@@ -387,6 +391,153 @@ def check_cases(res, ctx, cases, root, offset, bins):
                                "process_stdout": p.stdout, "process_stderr": p.stderr[-1000:], "library": impl_raw[k]}, found_input=False)
 
 
+# ------------------------------------------------------------------ text layer (Model/EtradeText.v)
+
+def known_c19():
+    out = []
+    for p in (os.path.join(common.VERIF, "known-findings.json"), os.path.join(common.VERIF, "known-findings.d", "C19.json")):
+        if os.path.exists(p):
+            for k in json.load(open(p)).get("findings", []):
+                if k.get("property") == "C19" and k.get("id") not in [x.get("id") for x in out]:
+                    out.append(k)
+    return out
+
+
+GRANT_ROW_RE = re.compile(r"Grant Number\s+\d+")
+
+
+def eso_named_grants(text):
+    """number of `Grant Number <n>` rows between "Exercise Details" and the last "Exercise Date" (what the
+    document says it exercises), independent of the model"""
+    q = text.rfind("Exercise Date")
+    if q < 0:
+        return None
+    p = text.rfind("Exercise Details", 0, q)      # the last one that ends before it
+    if p < 0:
+        return None
+    return len(GRANT_ROW_RE.findall(text[p:q + len("Exercise Date")]))
+
+
+def replay_known_text(res, ctx, root):
+    """the witness of the known finding `eso-grant-row-missing` through the whole tool"""
+    for k in known_c19():
+        w = k.get("witness", {})
+        if "text_files" not in w:
+            continue
+        d = os.path.join(root, "known-" + k["id"])
+        paths = []
+        for f in w["text_files"]:
+            p = os.path.join(d, f["path"])
+            os.makedirs(os.path.dirname(p), exist_ok=True)
+            open(p, "w").write(f["text"])
+            paths.append(p)
+        o = run_harness(ctx["exe"], "extract", [{"files": paths}], nproc=1)[0]
+        ctx["stats"]["known_witness_replayed"] += 1
+        if o.get("rc") == 0 and w["lost"] not in o.get("out", "") and w["kept"] in o.get("out", ""):
+            res.known(k["what"])
+
+
+def text_pass(res, ctx, rng, root):
+    """every document the check rendered, damaged variants of them, a hand-written adversarial corpus and token
+    soups: parse_pdf_text of the real code (harness mode parsetext) against the extracted model
+    (Model/EtradeText.parse_text); rendered documents also against the records the generator meant
+    (the statement's data is returned exactly) and the Gallina renderers against the Python ones"""
+    st = ctx["stats"]
+    tier = ctx["tier"]
+    replay_known_text(res, ctx, root)
+    seen = set()
+    plain = []
+    for f in ctx.get("text_files", []):
+        key = json.dumps([f["kind"], f.get("style", 0), f["rec"]], sort_keys=True)
+        if key in seen:
+            continue
+        seen.add(key)
+        plain.append(f)
+    cap = 9000 if tier == "quick" else 30000
+    if len(plain) > cap:
+        plain = plain[:len(corpus()) * 4] + rng.sample(plain[len(corpus()) * 4:], cap - len(corpus()) * 4)
+    docs = []          # (origin, kind, op, file-or-None, text, path)
+    for f in plain:
+        txt = E.render(f)
+        docs.append(("rendered", f["kind"], "plain", f, txt, f["path"]))
+        ops = T.damage_ops(f["kind"])
+        for op in rng.sample(ops, 2 if tier == "quick" else 4):
+            d = T.damage(rng, txt, op)
+            if d != txt:
+                docs.append(("damaged", f["kind"], op, f, d, f["path"]))
+                if rng.random() < 0.15:
+                    op2 = rng.choice(ops)
+                    docs.append(("damaged", f["kind"], op + "+" + op2, f, T.damage(rng, d, op2), f["path"]))
+    for lab, txt in T.adversarial_corpus():
+        docs.append(("adversarial", lab.split()[0], lab, None, txt, "adv/doc.txt"))
+    for kind in sorted(T.VOCAB):
+        for _ in range(150 if tier == "quick" else 1500):
+            docs.append(("soup", kind, "soup", None, T.soup(rng, kind), "soup/doc.txt"))
+    impl_raw = run_harness(ctx["exe"], "parsetext", [{"text": d[4], "path": d[5]} for d in docs])
+    mod_raw = run_model([T.enc_text(d[4]) for d in docs], group="etradetext")
+    lay_jobs = [(i, T.enc_layout(d[3])) for i, d in enumerate(docs) if d[2] == "plain"]
+    lay_jobs = [(i, e) for i, e in lay_jobs if e is not None]
+    lay_out = dict(zip([i for i, _ in lay_jobs], run_model([e for _, e in lay_jobs], group="etradetext")))
+    diffs, exp_fail, panics, dropped = [], [], [], []
+    for i, (d, io_, mo) in enumerate(zip(docs, impl_raw, mod_raw)):
+        origin, kind, op, f, txt, path = d
+        impl = T.canon_impl(io_, path.split("/")[-1])
+        model = T.parse_model(mo)
+        st["text-docs"] += 1
+        st["text-%s-%s-%s" % (origin, kind if origin != "adversarial" else "corpus", impl["status"])] += 1
+        if origin == "damaged":
+            st["text-damage-%s" % op.split("+")[0]] += 1
+        if impl["status"] == "ok":
+            st["text-records"] += len(impl["recs"])
+        dd = T.diff(model, impl)
+        if dd is not None:
+            diffs.append((d, io_, dd))
+        if impl["status"] == "panic":
+            panics.append((d, io_))
+        if op == "plain":
+            ex = T.expected(f)
+            de = T.diff(ex, impl, "printed data")
+            if de is not None:
+                exp_fail.append((d, io_, de))
+            # the round-trip statements (C19_*_text_roundtrip, C19_text_roundtrips_full) on this record:
+            # the MODEL returns the printed data
+            dm = T.diff(ex, model, "printed data")
+            st["text-roundtrip-statement-evaluations"] += 1
+            if dm is not None:
+                diffs.append((d, io_, "the model does not return the printed data of a rendered document (round-trip statement): "
+                              + dm.replace("implementation", "model")))
+            if i in lay_out:
+                st["text-gallina-renderings"] += 1
+                if T.dec_render(lay_out[i]) != txt:
+                    diffs.append((d, io_, "Spec/EtradeLayout.render_%s differs from the Python renderer" % kind))
+        # the property on exercise confirmations: every named grant is a benefit, or an error
+        if impl["status"] == "ok" and impl["kind"] == "benefits" and any(r["note"].startswith("Option Grant") for r in impl["recs"]):
+            n = eso_named_grants(txt)
+            if n is not None and n > len(impl["recs"]):
+                dropped.append((d, io_, n, len(impl["recs"])))
+    st["text-model-diffs"] = len(diffs)
+    st["text-panics-of-the-real-code"] = len(panics)
+    st["text-eso-grants-silently-dropped(known class)"] = len(dropped)
+    ctx["text_panics"] = [dict(kind=d[1], op=d[2], panic=io_.get("panic"), text=d[4]) for d, io_ in panics[:3]]
+    for d, io_, de in exp_fail[:1]:
+        res.violation("failing-input", "text layer: a document in a supported layout is not read as printed: " + de,
+                      {"text_doc": {"text": d[4], "path": d[5], "kind": d[1], "rec": d[3]["rec"], "style": d[3].get("style", 0)},
+                       "expected_spec": "parse_pdf_text returns the printed data of the document", "actual_impl": io_,
+                       "differing_documents": len(exp_fail)})
+    known_ids = [k.get("id") for k in known_c19()]
+    if dropped and "eso-grant-row-missing" not in known_ids:
+        d, io_, n, m = dropped[0]
+        res.violation("failing-input", "text layer: an exercise confirmation names %d grants, %d benefits are returned and no error" % (n, m),
+                      {"text_doc": {"text": d[4], "path": d[5], "kind": d[1]}, "actual_impl": io_,
+                       "expected_spec": "each benefit is accounted for exactly once, or an error"})
+    if diffs and not res.violations:
+        d, io_, dd = diffs[0]
+        res.violation("broken-correspondence", "text-layer model and parse_pdf_text differ (%s document, %s): %s" % (d[1], d[2], dd),
+                      {"theorem_or_projection": "etrade text layer (outcome class ok/error/panic; every field of every BenefitEntry / BrokerTx)",
+                       "text_doc": {"text": d[4], "path": d[5], "kind": d[1]}, "actual_impl": io_, "difference": dd,
+                       "differing_documents": len(diffs)}, found_input=False)
+
+
 def run(res, ctx):
     tier, seed = ctx["tier"], ctx["seed"]
     rng = random.Random(seed * 104729 + 19)
@@ -418,6 +569,7 @@ def run(res, ctx):
             off += m
         ctx["nproc_sample"] = 3
         check_cases(res, ctx, [gen_case(rng, big=True) for _ in range(nbig)], root, off, bins)
+        text_pass(res, ctx, random.Random(seed * 7919 + 190), root)
     finally:
         shutil.rmtree(root, ignore_errors=True)
     st = ctx["stats"]
@@ -440,18 +592,55 @@ def run(res, ctx):
         "samples": ctx["samples"],
         "input_distribution": {k: v for k, v in sorted(st.items())},
         "traces_validated_against_impl": st["evaluations"] - st["correspondence_diffs"],
-        "text_layer": "differential only: the regex layer of src/peripheral/broker/etrade.rs is exercised through generated .txt documents, not modelled",
+        "text_layer": "modelled (coq/Model/EtradeText.v, theorems C19_*_text_roundtrip / C19_text_never_panics_refuted / C19_zip_truncation): "
+                      "parse_pdf_text of the real code vs the extracted model on every rendered document, damaged variants (lines dropped/duplicated/"
+                      "swapped/joined, truncation, repeated sections, $ and , variations, blank lines, CRLF, extra parentheses, dropped words, digit edits), "
+                      "a hand-written adversarial corpus and token soups; counts per origin/kind/outcome under input_distribution text-*",
+        "text_layer_documents": st["text-docs"],
+        "text_layer_model_diffs": st["text-model-diffs"],
+        "text_layer_panics_of_the_real_code": ctx.get("text_panics", []),
     })
     res.assumptions += [
-        "the regex text layer (RSU/ESPP/ESO/trade-confirmation parsers) is not modelled; it is exercised differentially on documents rendered from templates derived from tests/data and the unit-test samples",
+        "the regex text layer is modelled over Unicode scalar values with ASCII digits; non-ASCII members of \\d / \\w, Unicode case folding of (?i) and invalid UTF-8 are outside the model",
         "file arguments are sorted by the tool (PathBuf order); the model receives the records in that order (computed by the check)",
         "acb acceptance of emitted rows is checked with parse_tx_csv + Tx::try_from after supplying the USD rate load_tx_rates would load; share counts are positive in generated documents",
         "u32 read_index overflow and Date saturation at 9999-12-31 are not modelled",
     ]
 
 
+def replay_text(res, ctx, obj):
+    """replay of a text-layer violation: one document through parse_pdf_text and the extracted model"""
+    d = obj["text_doc"]
+    io_ = run_harness(ctx["exe"], "parsetext", [{"text": d["text"], "path": d.get("path", "doc.txt")}], nproc=1)[0]
+    mo = run_model([T.enc_text(d["text"])], nproc=1, group="etradetext")[0]
+    impl = T.canon_impl(io_, d.get("path", "doc.txt").split("/")[-1])
+    model = T.parse_model(mo)
+    if d.get("rec") is not None:
+        f = {"kind": d["kind"], "rec": d["rec"], "style": d.get("style", 0), "path": d.get("path", "doc.txt")}
+        de = T.diff(T.expected(f), impl, "printed data")
+        if de is not None:
+            res.violation("failing-input", "text layer: a document in a supported layout is not read as printed: " + de,
+                          {"text_doc": d, "actual_impl": io_})
+    if impl["status"] == "ok" and impl["kind"] == "benefits" and any(r["note"].startswith("Option Grant") for r in impl["recs"]):
+        n = eso_named_grants(d["text"])
+        if n is not None and n > len(impl["recs"]):
+            if "eso-grant-row-missing" in [k.get("id") for k in known_c19()]:
+                res.known([k["what"] for k in known_c19() if k.get("id") == "eso-grant-row-missing"][0])
+            else:
+                res.violation("failing-input", "text layer: an exercise confirmation names %d grants, %d benefits are returned and no error" % (n, len(impl["recs"])),
+                              {"text_doc": d, "actual_impl": io_})
+    dd = T.diff(model, impl)
+    if dd is not None and not res.violations:
+        res.violation("broken-correspondence", "text-layer model and parse_pdf_text differ: " + dd,
+                      {"theorem_or_projection": "etrade text layer", "text_doc": d, "actual_impl": io_}, found_input=False)
+    res.coverage.update({"evaluations": 1, "distinct_nontrivial": 1, "rule": "replay of a text-layer document", "samples": [{"outcome": impl["status"]}]})
+    return res.finish(common.check_proofs("C19"))
+
+
 def replay(res, ctx, path):
     obj = json.load(open(path))
+    if "text_doc" in obj:
+        return replay_text(res, ctx, obj)
     case = {"files": [{"path": f["path"], "kind": f["kind"], "style": f.get("style", 0), "rec": f["rec"]} for f in obj["input"]["files"]]}
     ctx.update(stats=collections.Counter(), seen=set(), samples=[], corr_diffs=[], nproc_sample=1)
     root = os.path.join(RUNROOT, "etrade-replay-%d" % os.getpid())
